@@ -1008,6 +1008,85 @@ def run(only=None):
         s.done()
         rep.log(f"indicator_is_per_object: {n_cases} cases, {len(s.viol)} violation signatures, {s.wall}s")
 
+    # ---- 7: PDUs serialised on other library paths (generator, octet packing) -----------------------------
+    if want("other_serialisation_paths"):
+        s = rep.sub("other_serialisation_paths",
+                    "data headers serialised through TransmissionGenerator (header announcing the produced block count and header announcing 0 "
+                    "blocks behind a preamble) x 3 rates x confirmed/unconfirmed x payload lengths: the header burst parses with crc_ok true; "
+                    "short LCs handed over octet-packed (40 bits, 4 zero pad bits): valid -> crc_ok true, every single-bit error in the 36 bits -> false")
+        from okdmr.dmrlib.transmission.transmission_generator import TransmissionGenerator as _TG
+        from okdmr.dmrlib.etsi.layer2.burst import Burst as _Burst
+        from okdmr.dmrlib.etsi.layer2.pdu.data_header import DataHeader as _DH
+        from okdmr.dmrlib.etsi.layer2.pdu.rate12_data import Rate12Data as _R12
+        from okdmr.dmrlib.etsi.layer2.pdu.rate34_data import Rate34Data as _R34
+        from okdmr.dmrlib.etsi.layer2.pdu.rate1_data import Rate1Data as _R1
+        from okdmr.dmrlib.etsi.layer2.elements.data_packet_formats import DataPacketFormats as _DPF
+        from okdmr.dmrlib.etsi.layer2.elements.full_message_flag import FullMessageFlag as _FMF
+        from okdmr.dmrlib.etsi.layer2.elements.resynchronize_flag import ResynchronizeFlag as _RSF
+        from okdmr.dmrlib.etsi.layer2.elements.sap_identifier import SAPIdentifier as _SAP
+
+        n_cases = 0
+        for cls_ in (_R12, _R34, _R1):
+            for confirmed in (False, True):
+                for length in (0, 5, 23, 40, 61):
+                    for announce in ("right", "zero"):
+                        payload = bytes((i * 11 + 3) & 0xFF for i in range(length))
+                        case = {"rate": cls_.__name__, "confirmed": confirmed, "length": length, "header_announces": announce}
+                        n_cases += 1
+                        try:
+                            blocks, pad = _TG.generate_data_bursts(packet_type=cls_, userdata=payload, is_confirmed=confirmed)
+                            hdr = _DH(dpf=_DPF.DataPacketConfirmed if confirmed else _DPF.DataPacketUnconfirmed, is_response_requested=confirmed,
+                                      pad_octet_count=pad, sap_identifier=_SAP.ShortData, llid_destination=2305678, llid_source=2301234,
+                                      full_message_flag=_FMF.FirstTryToCompletePacket, blocks_to_follow=len(blocks) if announce == "right" else 0,
+                                      resynchronize_flag=_RSF.DoNotSync, send_sequence_number=0, fragment_sequence_number=8)
+                            bursts = _TG.generate_full_data_transmission(packet_type=cls_, userdata=payload, data_header=hdr, csbk_count=2)
+                            for b in bursts:
+                                p_ = _Burst.from_bytes(b.as_bytes())
+                                if isinstance(p_.data, _DH) and p_.data.crc_ok is not True:
+                                    s.violation("generator_serialised_header_reports_crc_invalid", case,
+                                                "a data header serialised by the transmission generator parses back with crc_ok false")
+                                if not p_.slot_type.fec_parity_ok:
+                                    s.violation("generator_serialised_burst_reports_slot_parity_invalid", case)
+                                if confirmed and hasattr(p_.data, "crc9_ok"):
+                                    pass  # block typing needs the transmission context: covered by C07
+                        except Exception as e:
+                            s.violation("exception_generator_path:" + exc_sig(e), case, repr(e))
+                        s.case(nontrivial=True, calls=6, outcome=("generator", announce), sample=case if n_cases == 2 else None)
+        # short LC, octet packed
+        for name in ("slc_null", "slc_activity_update"):
+            p_ = PROT[name]
+            kind = p_.kind
+            for vals in (c03.kind_cases(kind, "quick")[:6] or [{}]):
+                try:
+                    base = kind.build(vals).as_bits().to01()
+                except Exception:
+                    continue
+                case = {"kind": name, "bits36": base}
+                n_cases += 1
+                try:
+                    padded = bitarray(base + "0000")
+                    if kind.parse(padded).crc_ok is not True:
+                        s.violation("octet_packed_short_lc_reports_crc_invalid", case, "a valid short LC handed over as 5 octets (40 bits) reports crc_ok false")
+                    for q in range(36):
+                        if not p_.syn[q]:
+                            continue
+                        bad = base[:q] + ("1" if base[q] == "0" else "0") + base[q + 1:] + "0000"
+                        try:
+                            if kind.parse(bitarray(bad)).crc_ok:
+                                s.violation("octet_packed_short_lc_single_bit_error_accepted", {**case, "flipped": q})
+                        except Exception:
+                            pass
+                        # pad bits that are not zero do not belong to the PDU: the verdict is about the first 36 bits
+                    for padbits in ("1111", "1010"):
+                        if kind.parse(bitarray(base + padbits)).crc_ok is not True:
+                            s.violation("short_lc_verdict_depends_on_bits_behind_the_pdu", {**case, "pad": padbits})
+                except Exception as e:
+                    s.violation("exception_octet_packed_short_lc:" + exc_sig(e), case, repr(e))
+                s.case(nontrivial=True, calls=40, outcome=("slc40", name), sample=case if n_cases % 7 == 0 else None)
+        s.declared = n_cases
+        s.done()
+        rep.log(f"other_serialisation_paths: {n_cases} cases, {len(s.viol)} violation signatures, {s.wall}s")
+
     rep.bounds = {
         "fec_words": "all 2^20 slot-type and all 2^16 EMB words",
         "encoded": "C03 field spaces of the 14 protected kinds (+ slot type 208, EMB 128, HRNP 911 + all 2^16 packet numbers)",
